@@ -10,11 +10,36 @@ import GmVerif.Drv.SM9Impl
 import GmVerif.Drv.SM9Spec
 open GmVerif
 
-def step (spec : Bool) (line : String) : String :=
-  let toks := (line.trimAscii.toString.splitOn " ").filter (· ≠ "")
+def step1 (spec : Bool) (toks : List String) : String :=
   let r := if spec then (Drv.Sym.specStep toks <|> Drv.SM2.specStep toks <|> Drv.SM9Spec.specStep toks)
            else (Drv.Sym.implStep toks <|> Drv.SM2.implStep toks <|> Drv.SM9Impl.implStep toks)
   r.getD "BADOP"
+
+/-- `sm2_kexseq dA dB idA idB klen rA1,rA2,.. rB1,rB2,..`: several honest sessions run on ONE long-lived pair of
+    `Exchange` objects in the real code; the models and the standard have no object state, so session i is the
+    single-session op with the i-th ephemeral scalars.  Payloads joined by " | ". -/
+def kexSeq (spec : Bool) (pre : List String) (rAs rBs : String) : String :=
+  let outs := (List.zip (rAs.splitOn ",") (rBs.splitOn ",")).map fun (a, b) => step1 spec (["sm2_kex"] ++ pre ++ [a, b, "-"])
+  if outs.all (·.startsWith "OK ") then "OK " ++ String.intercalate " | " (outs.map fun o => (o.drop 3).toString)
+  else if outs.any (· == "ANY") then "ANY"
+  else if outs.any (· == "BADOP") then "BADOP"
+  else if outs.any (· == "PANIC") then "PANIC" else "ERR"
+
+/-- generic "same thread, one after another" composition: `seq <op> a1 a2 ; a1 a2 ; ...` in the real code runs the calls
+    in order on one thread (so any hidden per-thread / global state would show); models and oracle are pure, call by call. -/
+def seqOp (spec : Bool) (op : String) (rest : List String) : String :=
+  let groups := (String.intercalate " " rest).splitOn " ; "
+  let outs := groups.map fun g => step1 spec (op :: (g.splitOn " ").filter (· ≠ ""))
+  if outs.any (· == "BADOP") then "BADOP"
+  else if outs.any (· == "ANY") then "ANY"
+  else "OK " ++ String.intercalate " | " (outs.map fun o => if o.startsWith "OK " then (o.drop 3).toString else if o.startsWith "ERR" then "ERR" else o)
+
+def step (spec : Bool) (line : String) : String :=
+  let toks := (line.trimAscii.toString.splitOn " ").filter (· ≠ "")
+  match toks with
+  | ["sm2_kexseq", dA, dB, idA, idB, klen, rAs, rBs] => kexSeq spec [dA, dB, idA, idB, klen] rAs rBs
+  | "seq" :: op :: rest => seqOp spec op rest
+  | _ => step1 spec toks
 
 partial def loop (spec : Bool) (h out : IO.FS.Stream) : IO Unit := do
   let line ← h.getLine
